@@ -15,6 +15,8 @@ COMMON_ASSUMPTIONS = [
     "no active spydrnet_* extension plugin overrides IR methods",
     "callers use the public API (rule O4 checks this for the library's own modules)",
     "preconditions of cascade calls between IR mutators hold (callee asserts are not refusal points of the caller)",
+    "a listener told about a change may refuse it (raise) but does not itself edit the relation it is being told about "
+    "(a local that snapshots a field before the announcement names the same object afterwards)",
     "the check decides the named structural clauses (necessary conditions), not the behaviour as a whole",
 ]
 
